@@ -247,7 +247,7 @@ func GenExpr(t *rapid.T, cols []Ident, simple bool) string {
 	if !simple {
 		forms = append(forms,
 			c+" IS NOT NULL", c+" IN (1,2,3)", "CASE WHEN "+c+" THEN 1 ELSE 2 END", c+" LIKE 'a%'", "NOT "+c, c+" AND "+c2,
-			c+" BETWEEN 1 AND 5", "-"+c, "CAST("+c+" AS TEXT)", c+" IS NULL", c+" > 1 OR "+c2+" < 1", c+" COLLATE NOCASE = 'a'", "typeof("+c+") = 'text'")
+			c+" BETWEEN 1 AND 5", "-"+c, "+"+c, "~"+c, "+("+c+")", "CAST("+c+" AS TEXT)", c+" IS NULL", c+" > 1 OR "+c2+" < 1", c+" COLLATE NOCASE = 'a'", "typeof("+c+") = 'text'")
 	}
 	return rapid.SampledFrom(forms).Draw(t, "expr")
 }
@@ -453,7 +453,14 @@ func GenTable(t *rapid.T, name Ident, o Opts) Table {
 		case 0, 1:
 			tb.Cons = append(tb.Cons, prefix()+"UNIQUE ("+GenIndexedCols(t, ids, 3, "tu")+")"+genOnConflict(t, o.Conservative))
 		case 2:
-			tb.Cons = append(tb.Cons, prefix()+"FOREIGN KEY ("+rapid.SampledFrom(ids).Draw(t, "fkcol").SQL+") "+genFK(t, ids, o.Conservative))
+			child := rapid.SampledFrom(ids).Draw(t, "fkcol").SQL
+			fk := genFK(t, ids, o.Conservative)
+			if len(ids) >= 2 && rapid.IntRange(0, 2).Draw(t, "fktwo") == 0 {
+				// a composite key: two child columns, two parent columns
+				child += ", " + rapid.SampledFrom(ids).Draw(t, "fkcol2").SQL
+				fk = strings.Replace(fk, "(id)", "(x, y)", 1)
+			}
+			tb.Cons = append(tb.Cons, prefix()+"FOREIGN KEY ("+child+") "+fk)
 		case 3:
 			tb.Cons = append(tb.Cons, prefix()+"CHECK ("+GenExpr(t, ids, rapid.Bool().Draw(t, "tcsimple"))+")")
 		}
